@@ -103,6 +103,12 @@ class Program:
     def __init__(self, path):
         self.path = path
         self.bodies = parse_file(path)
+        # simple named constants: `const NAME: ty = const LIT;`
+        self.consts = {}
+        for l in open(path):
+            m = re.match(r"^const ([\w:]+): \w+ = const (.*);$", l.rstrip())
+            if m:
+                self.consts[m.group(1).split("::")[-1]] = m.group(2)
 
     def find(self, name_re, param_res=None):
         """Locate bodies by name regex (applied to the position-free name) and
